@@ -200,12 +200,16 @@ class Model:
                 return "reject"
             raw = [json.dumps([e, (layers[i] if self.kind == "M" else None)]) for i, e in enumerate(es)]
             if len(set(raw)) != len(raw):
+                if self.kind == "D":
+                    raise Ambiguous("directed weighted batch repeating a tuple (docstring: weight is updated)")
                 return "reject"
             if self.kind == "T":
                 rawt = [json.dumps(e) for e in es]
                 if len(set(rawt)) != len(rawt):
                     raise Ambiguous("temporal weighted batch repeating a node tuple")
         if mds is not None and len(mds) != len(es):
+            if len(mds) == 0:
+                raise Ambiguous("empty metadata list (reads as 'not given')")
             if len(mds) < len(es):
                 return "reject"
             raise Ambiguous("metadata list longer than edge list")
